@@ -80,4 +80,48 @@ def orbitPropagate (stepf : Elts → R → Elts) (p : PropObj) (x : Elts) (dt : 
   let p' := p.setOrbit x
   (p', p'.orbit.map (fun o => stepf o dt))
 
+/-! ### Propagation to a DATE
+
+`Orbit.propagate` is handed a `Date` in any of the time scales (or a `timedelta`), the orbit's epoch is a `Date` in any of
+the time scales.  Dates are those of the C03 model (Model/Date.lean: the instant on the reference scale TAI, `_d`/`_s`, plus
+the own scale and its offset).  `keplerDeltaT`, `j2DeltaT` (the span `delta_t`) and `keplerTdTarget`, `j2TdTarget`
+(`date = self.orbit.date + date` for a timedelta) are translated from the head of both `propagate` methods on every run
+(Generated/Propag). -/
+
+/-- an orbit as a propagator holds it: mean elements and the epoch -/
+structure Orb where
+  elts : Elts
+  date : Date.Date
+
+/-- `Kepler.propagate(date)`, `date` a `Date`: `delta_t` from the two dates, `new.date = date` -/
+def keplerTo (mu : R) (o : Orb) (date : Date.Date) : Orb :=
+  { elts := keplerStep mu o.elts (keplerDeltaT date o.date), date := date }
+
+/-- `J2.propagate(date)`, `date` a `Date` -/
+def j2To (mu : R) (o : Orb) (date : Date.Date) : Orb :=
+  { elts := j2Step mu o.elts (j2DeltaT date o.date), date := date }
+
+/-- `Kepler.propagate(timedelta)`: the target date is built first (`Date.__add__`, in the epoch's own scale; it may fail as
+any `Date` construction may), then as for a date -/
+def keplerToTd (cfg : Date.Cfg) (env : Date.Env) (mu : R) (o : Orb) (tdUs : Int) : Except Date.Err Orb :=
+  match keplerTdTarget cfg env o.date tdUs with
+  | .ok d => .ok (keplerTo mu o d)
+  | .error e => .error e
+
+/-- `J2.propagate(timedelta)` -/
+def j2ToTd (cfg : Date.Cfg) (env : Date.Env) (mu : R) (o : Orb) (tdUs : Int) : Except Date.Err Orb :=
+  match j2TdTarget cfg env o.date tdUs with
+  | .ok d => .ok (j2To mu o d)
+  | .error e => .error e
+
+/-- the propagator object holding a dated orbit (`_orbit`: the converted copy, elements AND epoch) -/
+structure PropObjD where
+  orbit : Option Orb
+
+/-- `Orbit.propagate(date)` on the object level: the setter overwrites `_orbit` with the caller's orbit as it is NOW
+(elements and epoch), then the propagator works on `_orbit`.  `toF` is `keplerTo mu` or `j2To mu`. -/
+def orbitPropagateTo (toF : Orb → Date.Date → Orb) (p : PropObjD) (o : Orb) (date : Date.Date) : PropObjD × Option Orb :=
+  let p' : PropObjD := { orbit := some o }
+  (p', p'.orbit.map (fun c => toF c date))
+
 end BeyondVerif.R
